@@ -45,10 +45,21 @@ TJudge ==
      \/ (~EnterPending /\ RetPending /\ bad' = <<ReturnWhy>>)
   /\ UNCHANGED <<cvars, tid, fin, i>>
 
+\* Reference counts (the driver measures them around the call): a call leaves every argument object with the count it
+\* had, plus one per place the object itself appears in what was returned; an object made for the result is referenced
+\* by the result only.  The same holds when the call raises.  T.refs.args / T.refs.res are the surpluses.
+RefWhy == IF \E k \in 1..Len(T.refs.args) : T.refs.args[k] # 0
+          THEN <<"reference count of an argument object changed across the call",
+                 CHOOSE k \in 1..Len(T.refs.args) : T.refs.args[k] # 0, T.refs.args>>
+          ELSE IF \E k \in 1..Len(T.refs.res) : T.refs.res[k] # 0
+          THEN <<"a returned object carries references nobody holds (leak) or too few", T.refs.res>>
+          ELSE <<>>
+
 ErrVerdict ==   \* no overload accepts the arguments
   IF LibEvents # <<>> THEN <<"REJECT", "a call that matches no signature reached the library", LibEvents[1].target>>
   ELSE IF T.exc \notin {"TypeError", "ValueError"} THEN
        <<"REJECT", "a call that matches no signature did not raise TypeError/ValueError", T.exc>>
+  ELSE IF RefWhy # <<>> THEN <<"REJECT">> \o RefWhy
   ELSE <<"ACCEPT", "rejected cleanly">>
 
 TVerdict ==
@@ -59,6 +70,7 @@ TVerdict ==
        (IF Idx(T) = 0 THEN ErrVerdict
         ELSE IF bad # <<>> THEN <<"REJECT">> \o bad
         ELSE IF i <= Len(LibEvents) THEN <<"REJECT", "library was called more than once">>
+        ELSE IF RefWhy # <<>> THEN <<"REJECT">> \o RefWhy
         ELSE <<"ACCEPT", "ok">>))
   /\ UNCHANGED <<cvars, tid, i, bad>>
 TSpec == TInit /\ [][TStep \/ TJudge \/ TVerdict]_<<cvars, tid, fin, i, bad>>
